@@ -131,7 +131,7 @@ class PickledDict(PersistentBytesDict):
         self.close()
 
     def clear(self):
-        self.__data = {}
+        self.__data.clear()
 
     @property
     def dict_local_path(self):
